@@ -18,6 +18,7 @@ import (
 	"verifharness/internal/c19"
 	"verifharness/internal/c20"
 	"verifharness/internal/pc"
+	"verifharness/internal/pubapi"
 	"verifharness/internal/rcv"
 	"verifharness/internal/rcvgate"
 	"verifharness/internal/rep"
@@ -43,6 +44,7 @@ var commands = map[string]func(args []string) *rep.Report{
 	"c08": sub.Run,
 	"c09": rcv.Run,
 	"c16": rcvgate.Run,
+	"x01": pubapi.Run,
 }
 
 func main() {
